@@ -23,6 +23,9 @@ using oracle::QPoint;
 enum Kind { POLY, SHAPE, BOX, GRID, PSET, PROD };
 
 template <class D> struct Dom;   // name(), kind, nnc, oct, rational
+// domains over floating point numbers (specialised to true in obj_float.cc): results depend on the rounding along
+// each code path, and closure is approximated (a second closure pass may tighten the matrix further)
+template <class D> struct Inexact { static constexpr bool value = false; };
 
 // ---------------------------------------------------------------- payload
 inline Coefficient coef(long v) {
@@ -187,11 +190,11 @@ template <class D> inline std::string bystander_sig(const D& x, Probes& pr) {
 }
 
 // context for definition checks done inside operation closures
-struct DefCtx { Ctx* ctx = nullptr; Probes* probes = nullptr; const Op* op = nullptr; std::string dom, prop; bool active = false; };
+struct DefCtx { Ctx* ctx = nullptr; Probes* probes = nullptr; const Op* op = nullptr; std::string dom, prop, suffix; bool active = false; };
 static DefCtx g_def;
 inline void def_violation(const std::string& monitor, const std::string& detail) {
   if (!g_def.ctx || !g_def.active) return;
-  g_def.ctx->violation(g_def.prop, monitor, g_def.dom + "|" + (g_def.op ? g_def.op->kind : "?") + "|-", detail);
+  g_def.ctx->violation(g_def.prop, monitor, g_def.dom + "|" + (g_def.op ? g_def.op->kind : "?") + "|-" + (g_def.suffix.empty() ? "" : "|" + g_def.suffix), detail);
 }
 
 // ---- pointwise definition checks (active for C01 C04 C05 C09 C10): the membership of every
@@ -584,9 +587,25 @@ template <class D> struct ObjHarness : Harness {
   }
 
   // ---------------- checks on completed operations
+  // Floating point shapes: OK() re-closes a copy and demands the same matrix, but with bounds rounded upwards closure is
+  // not idempotent (the library's own comment in BD_Shape::OK() says so for the reduction test, which it skips for inexact
+  // types; the closure test has the same limitation).  An OK() failure is attributed to that, and not reported, exactly
+  // when the same text loaded with the closure/reduction marks cleared satisfies OK().
+  static bool only_inexact_closure(const D& x) {
+    if constexpr (!Inexact<D>::value || Dom<D>::kind != SHAPE) return false;
+    else {
+      std::string t = dump_of(x); bool changed = false;
+      for (const char* f : { "+SPC", "+SPR", "+SC" }) { size_t p = t.find(f); if (p != std::string::npos && p < 64) { t[p] = '-'; changed = true; } }
+      if (!changed) return false;
+      D y((dimension_type) 0, PPL::UNIVERSE); std::istringstream in(t);
+      return y.ascii_load(in) && y.OK();
+    }
+  }
   void check_ok(Run& R, const Op& op, const D& x, const char* who) {
-    if (!x.OK())
+    if (!x.OK()) {
+      if (only_inexact_closure(x)) { R.ctx.stat("float.ok_false_inexact_closure"); return; }
       R.ctx.violation(R.prop, "ok", klass(op, who), std::string("OK() is false for the ") + who + " after a completed operation");
+    }
     // the class invariant of the descriptions themselves (sortedness flags, row shapes), which the object's OK() does not
     // look at: checked on private copies so that the lazy state of `x' is not touched
     else if constexpr (Dom<D>::kind == POLY) {
@@ -616,7 +635,7 @@ template <class D> struct ObjHarness : Harness {
     std::istringstream in(text);
     bool ok = y->ascii_load(in);
     if (!ok) { R.ctx.violation("C15", "load-fails", klass(op), "ascii_load returned false on text produced by ascii_dump"); return; }
-    if (!y->OK()) { R.ctx.violation("C15", "load-ok", klass(op, y->space_dimension() == 0 ? "zero-dim" : ""), "loaded object fails OK()"); return; }
+    if (!y->OK() && !only_inexact_closure(*y)) { R.ctx.violation("C15", "load-ok", klass(op, y->space_dimension() == 0 ? "zero-dim" : ""), "loaded object fails OK()"); return; }
     std::string again = dump_of(*y);
     if (again != text) {
       size_t k = 0; while (k < again.size() && k < text.size() && again[k] == text[k]) ++k;
